@@ -330,6 +330,133 @@ prop('C15',
      level_text='Bounded model checking of the code-root clause for single-chunk code at every padding class. The other clauses of C15 are outside the claim (partial).',
      level_note='Trusted: Kani/CBMC/cadical; TOY hash parametricity. Partial claim.')
 
+prop('C35', wip=True,
+     builds=[dict(crate='vm', filters=['c35_', 'x35_'])],
+     default=dict(mem=6, timeout={'quick': 900, 'thorough': 2400}, cbmc_extra=FS, unwindset=['memcmp.0:34']),
+     min_harnesses={'quick': 7, 'thorough': 7},
+     functions_encoded=['Interpreter::upload_bytecode_subsection', 'Interpreter::upload_inner', 'Interpreter::finalize_outputs',
+                        '<MemoryStorage as StorageInspect/StorageMutate<UploadedBytecodes>>::{get, insert/replace}'],
+     bounds=['upload_bytecode_subsection: subsection index, total and already-uploaded count: all u16 values (index < total, the Checked<Upload> rule); prior bytecode 0..4 and witness 0..3 symbolic bytes (harness constants)',
+             'upload_inner: MemoryStorage whose UploadedBytecodes table holds, under the symbolic transaction root, nothing / an uncompleted upload (2 symbolic bytes, symbolic count) / a completed one, plus an unrelated second root that must stay untouched; no inputs, outputs or fee (gas price 0)'],
+     assumptions=[VM_STUBS_NOTE.split(';')[-1].strip(), 'subsection_index < subsections_number and a present witness (guaranteed by Checked<Upload>)'],
+     out_of_claim=['deploy_inner / blob_inner / upgrade_inner (see the harness list: only what is listed under functions_encoded is decided)',
+                   'sequences of transactions: composition by induction over the stored (bytes, count) pair (argument)', 'Checked<Upload> Merkle-proof validation (C10 covers verify)'],
+     level_text='One-step bounded model checking of the real upload step functions against the sequential-upload specification from an arbitrary stored state: accepted iff next in order, stored value = prior bytes followed by the witness, completed exactly at the last part, completed bytecode never extended, failed steps and unrelated roots leave the table unchanged.',
+     level_note='Trusted: Kani/CBMC/cadical. Partial claim (upload part).')
+
+prop('C03', wip=True,
+     builds=[dict(crate='ext', filters=['c03_'])],
+     default=dict(mem=8, timeout={'quick': 900, 'thorough': 2400}, cbmc_extra=FS, unwindset=['memcmp.0:600']),
+     overrides=[(r'c03_tx_script_(coin_change|contract_variable)$', dict(mem=16, tier='thorough', attempt=True, timeout=1800))],
+     min_harnesses={'quick': 16, 'thorough': 18},
+     functions_encoded=['fuel_tx::Input::prepare_sign and the per-variant Coin/Contract/Message::prepare_sign', 'fuel_tx::Output::prepare_sign',
+                        '<ChargeableTransaction as PrepareSign>::prepare_sign, ScriptBody::prepare_sign', '<ChargeableTransaction as UniqueIdentifier>::{id, cached_id}',
+                        'fuel_tx::transaction::compute_transaction_id', '<Script as Cacheable>::precompute, CommonMetadata::compute', '<Script as Serialize>::to_bytes'],
+     bounds=['element layer: every one of the 7 input and 5 output variants, all scalar / fixed-array fields symbolic, byte vectors of 1..3 symbolic bytes',
+             'transaction layer: Script transactions with (inputs, outputs, witnesses) in {(0,0,0), (0,0,1), (1,1,1), (1,2,0)}, 4-byte script, 1-byte script data, tip and max-fee policies, all scalars symbolic, all chain ids'],
+     assumptions=['Result::{expect,unwrap} replaced by non-formatting models (K2)',
+                  'fuel_crypto::Hasher::{input, finalize} replaced by a logging stand-in: the obligation is on the hashed PRE-IMAGE (= big-endian chain id followed by the canonical bytes of the transaction with malleable fields defaulted and witnesses removed, built by the harness through the public constructors); SHA-256 itself and collision resistance are outside the claim; counterexamples are replayed natively with real SHA-256'],
+     out_of_claim=['Create / Upload / Upgrade / Blob / Mint at the transaction layer (their inputs/outputs go through the same element functions decided here; body prepare_sign of those kinds is the empty function)', 'larger shapes', 'SHA-256, collision resistance'],
+     level_text='Bounded model checking of the real prepare_sign / id / precompute code: per input and output variant the prepared value equals the value with exactly the malleable fields defaulted (so malleable fields never and all other fields always reach the id pre-image), and for Script transactions the bytes fed to the hasher are exactly chain id ‖ canonical bytes of that prepared transaction without witnesses, cached id = fresh id.',
+     level_note='Trusted: Kani/CBMC/cadical; logging Hasher stand-in (pre-image level).')
+
+prop('C04', wip=True,
+     builds=[dict(crate='ext', filters=['c04_'])],
+     default=dict(mem=8, timeout={'quick': 900, 'thorough': 2400}, cbmc_extra=FS, unwindset=['memcmp.0:400']),
+     overrides=[(r'c04_tx_script_(coin|pred|contract)', dict(mem=16))],
+     min_harnesses={'quick': 21, 'thorough': 21},
+     functions_encoded=['fuel_tx::input::InputRepr::{*_offset, from_input}', 'fuel_tx::output::OutputRepr::{*_offset, from_output}', 'Input::{predicate_offset, predicate_data_offset, repr}',
+                        'field::{ScriptGasLimit, ReceiptsRoot, Script, ScriptData, Policies, Inputs, Outputs, Witnesses}::*_offset / *_offset_at / inputs_predicate_offset_at for Script (chargeable_transaction.rs mod field, script.rs)',
+                        'CommonMetadata::compute / ScriptMetadata (cached offsets)', '<T as Serialize>::to_bytes for Input, Output, Witness, Policies, Script'],
+     bounds=['element layer: 7 input variants (predicate / data lengths from {0,1,2,3,7,8,9}) and 5 output variants, all fields symbolic',
+             'transaction layer: Script with (inputs, outputs, witnesses) in {(0,0,0), (0,0,1), (1,1,1), (1,1,0), (2,1,0)}, script lengths 4 and 7, data lengths 0, 1, 9; with and without precompute; index arguments beyond the vectors symbolic'],
+     assumptions=['Result::{expect,unwrap} replaced by non-formatting models (K2)'],
+     out_of_claim=['Create / Upload / Upgrade / Blob / Mint body offsets (salt, storage slots, proof set, ...)', 'larger shapes'],
+     level_text='Bounded model checking of the offset tables and accessors against the real encoder: every reported offset locates exactly the canonical bytes of the field, absent fields report None, cached (precomputed) offsets equal uncached ones.',
+     level_note='Trusted: Kani/CBMC/cadical. Partial claim (Script kind + all input/output variants).')
+
+prop('C07', wip=True,
+     builds=[dict(crate='ext', filters=['c07_'])],
+     default=dict(mem=3, timeout={'quick': 600, 'thorough': 1200}),
+     min_harnesses={'quick': 3, 'thorough': 3},
+     functions_encoded=['fuel_compression::RegistryKey::{next, as_u32, try_from(u32), try_from(&[u8]), as_ref}'],
+     bounds=['all 2^32 raw values / all 2^24 keys (exhaustive for the key kernel)'],
+     assumptions=['Result::{expect,unwrap} replaced by non-formatting models (K2)'],
+     out_of_claim=['derive(Compress/Decompress) round trip of transactions and id preservation: the derive output is async code against a registry context whose only implementation in this repository is test code; not built',
+                   'sequences sharing one registry with eviction'],
+     level_text='Bounded model checking of the registry-key kernel only (key wrap-around clause): next() is total on writable keys, increments, wraps MAX_WRITABLE to ZERO and never yields the reserved default key; u32 / byte conversions are mutually inverse. The transaction round-trip clauses of C07 are outside the claim.',
+     level_note='Trusted: Kani/CBMC/cadical. Partial claim (key kernel only).')
+
+prop('C27', wip=True,
+     builds=[dict(crate='vm', filters=['c27_'])],
+     default=dict(mem=8, timeout={'quick': 900, 'thorough': 2400}, cbmc_extra=FS, unwindset=['memcmp.0:70']),
+     min_harnesses={'quick': 4, 'thorough': 4},
+     functions_encoded=['interpreter::contract::{balance, balance_increase, balance_decrease}', '<op::TR as Execute>::execute, Interpreter::transfer, TransferCtx::transfer (contract context)',
+                        'internal::{internal_contract, current_contract}', 'Normal::check_contract_in_inputs', 'ReceiptsCtx::push', 'gas::gas_charge',
+                        '<MemoryStorage as ContractsAssetsStorage>::{contract_asset_id_balance, _insert, _replace}'],
+     bounds=['real MemoryStorage with optional balances for (source, asset) and (destination, asset) plus two bystander entries; contract and asset ids concrete and pairwise distinct, one instance with source == destination',
+             'amount, balances, presence of each entry, membership of the destination in the input set, $cgas/$ggas and every non-pointer register, and the whole gas schedule: symbolic (all u64 values)',
+             'TR executed in a contract (Call) context with the call frame id at $fp; operand pointers concrete'],
+     assumptions=[VM_STUBS_NOTE, 'binary Merkle leaf_sum/node_sum (receipts root) replaced by a stand-in: the receipts root value is not part of this property', 'register part of VMINV'],
+     out_of_claim=['every path through RuntimeBalances (hashbrown map, K5): transfers from a script context, external CALL coin forwarding, the in-memory balance table',
+                   'TRO, MINT, BURN, SMO, CALL forwarding, update_outputs (not built)', 'the global ledger equation over whole programs (sum of the local equations: argument)'],
+     level_text='One-step bounded model checking of the contract-balance kernel and of the TR instruction in a contract context against the local conservation equation: the source loses exactly what the destination gains, deficits and overflows panic instead of wrapping, the receipt carries the moved amount, bystander balances never change.',
+     level_note='Trusted: Kani/CBMC/cadical, split_registers model. Partial claim (contract-to-contract transfers).')
+
+prop('C30', wip=True,
+     builds=[dict(crate='vm', filters=['c30_', 'c27_tr_internal'])],
+     default=dict(mem=8, timeout={'quick': 900, 'thorough': 2400}, cbmc_extra=FS, unwindset=['memcmp.0:70']),
+     min_harnesses={'quick': 5, 'thorough': 5},
+     functions_encoded=['<Normal as Verifier>::check_contract_in_inputs', '<op::BAL as Execute>::execute, ContractBalanceCtx::contract_balance', '<op::TR as Execute>::execute (input check before any balance access, contract and script context)',
+                        'PredicateStorage<D>: every StorageInspect/Mutate/Size/Read/Write method of ContractsAssets, ContractsRawCode, ContractsState and contract_state_remove_range'],
+     bounds=['input set with 0..3 concrete contract ids, queried id symbolic among listed / unlisted ones', 'BAL / TR steps as in C27 with symbolic membership of the target in the input set',
+             'PredicateStorage: symbolic keys, offsets and values'],
+     assumptions=[VM_STUBS_NOTE, 'register part of VMINV'],
+     out_of_claim=['CALL, CCP, CROO, CSIZ, LDC, storage instructions, MINT/BURN (not built)', 'the rebuild of the input set at initialisation and the active-contract invariant over whole runs (argument)'],
+     level_text='Bounded model checking of the input-membership check and of two instructions using it: an unlisted contract is refused with ContractNotInInputs before any balance is read or written (storage compared before/after), listed ones are served; the predicate storage refuses every contract-table operation.',
+     level_note='Trusted: Kani/CBMC/cadical, split_registers model. Partial claim (BAL, TR, verifier, predicate storage).')
+
+prop('C32', wip=True,
+     builds=[dict(crate='vm', filters=['c32_']), dict(crate='vm', filters=['c32x_'], tier='thorough')],
+     default=dict(mem=6, timeout={'quick': 900, 'thorough': 2400}),
+     min_harnesses={'quick': 2, 'thorough': 5},
+     functions_encoded=['state::Debugger::{eval_state, set_single_stepping, set_last_state, last_state, is_active}', 'impl PartialEq<Breakpoint> for ProgramState',
+                        'thorough tier: Interpreter::instruction_per_inner (debugger gate) + eval_debugger_state for NOOP, ADD, JI'],
+     bounds=['debugger in single-stepping mode or without breakpoints; last reported state: every ProgramState variant with symbolic payload; location (contract id option, pc): all values',
+             'gate (thorough): arbitrary register state, symbolic gas schedule, the three concrete instruction words NOOP / ADD r16 r17 r18 / JI 3'],
+     assumptions=[VM_STUBS_NOTE, 'curve back ends stubbed in the gate harnesses (K3; never executed: the opcode is a harness constant)'],
+     out_of_claim=['breakpoint SETS: Debugger.breakpoints is a hashbrown map (K5); single-stepping goes through the same last-state suppression', 'whole-run equivalence of debugged and plain runs (argument from the two step facts)',
+                   'Interpreter::resume re-entering run_program'],
+     level_text='Bounded model checking of the debugger kernel: a location is reported unless the last reported state is a break at exactly that location, the last state is consumed, never reported without breakpoints; (thorough) a reported event executes nothing and a suppressed one executes the instruction exactly as without a debugger.',
+     level_note='Trusted: Kani/CBMC/cadical. Partial claim (single-stepping kernel; breakpoint sets out).')
+
+prop('C17', wip=True,
+     builds=[dict(crate='vm', filters=['c17_'])],
+     default=dict(mem=10, timeout={'quick': 1200, 'thorough': 2400}),
+     min_harnesses={'quick': 2, 'thorough': 2},
+     functions_encoded=['<op::ECR1 as Execute>::execute, Interpreter::secp256r1_recover, crypto::secp256r1_recover', '<op::ED19 as Execute>::execute, Interpreter::ed25519_verify, crypto::ed25519_verify',
+                        'MemoryInstance::{read_bytes, read, write_bytes}, OwnershipRegisters::verify_ownership', 'set_err / clear_err / inc_pc'],
+     bounds=['VMINV state with a symbolic 200-byte stack, no heap; all operand pointers / lengths: any u64; symbolic gas schedule (ED19 per-unit price 0)',
+             'the curve library call is replaced by a model returning an ARBITRARY result chosen by the solver (key bytes symbolic)'],
+     assumptions=[VM_STUBS_NOTE, 'fuel_crypto::secp256r1::recover and fuel_crypto::ed25519::verify replaced by arbitrary-result models that record what they were asked (DESIGN §3.3)'],
+     out_of_claim=['sign/recover/verify consistency and strict-verification equivalence: 256-bit curve arithmetic (libsecp256k1 FFI, k256/p256/ed25519-dalek) is out of reach for bit-blasting', 'ECK1 (same code shape; PublicKey has no raw constructor for the model)',
+                   'signature_format encode/decode'],
+     level_text='One-step bounded model checking of the VM signature instructions for ANY answer of the curve library: the library is asked about exactly the bytes in memory, success writes the key and clears $err, failure zeroes the destination and sets $err, ownership and bounds are enforced, nothing else changes.',
+     level_note='Trusted: Kani/CBMC/cadical. Partial claim: VM glue only, curve arithmetic not applicable.')
+
+prop('C31', wip=True,
+     builds=[dict(crate='vm', filters=['c31_'])],
+     default=dict(mem=12, timeout={'quick': 1200, 'thorough': 2400}, cbmc_extra=FS, unwindset=['memcmp.0:70']),
+     min_harnesses={'quick': 3, 'thorough': 3},
+     functions_encoded=['Interpreter::init_predicate, Interpreter::init_inner', 'MemoryInstance::{reset, grow_stack, write_noownerchecks}', 'RuntimeBalances::to_vm (empty balances)', 'RuntimePredicate::from_tx',
+                        '<Script as PrepareSign>::prepare_sign, to_bytes, id'],
+     bounds=['previous state: all 64 registers symbolic, memory with 24 symbolic stack bytes and a 16-byte dirty heap at a symbolic hp, one stale call frame with symbolic registers, stale input-contract set / output index map / owner pointer / panic context',
+             'transaction: Script with 1..3 inputs (coin predicate; + contract input; + two signed coins with owners from a 2-element palette), 4-byte script, all scalars symbolic; max_inputs = 3'],
+     assumptions=[VM_STUBS_NOTE, 'fuel_crypto::Hasher replaced by a constant stand-in (the id value is not the subject)', 'Bug::new replaced by the location-free constructor (hook)'],
+     out_of_claim=['whole-run determinism (argument: given equal initial states Interpreter::run is a function of state and storage)', 'init_script with non-empty balances (RuntimeBalances is a hashbrown map, K5)', 'VmMemoryPool', 'storage_slot_cache contents (cleared by the same code path; not constructed dirty here)'],
+     level_text='Bounded model checking of the real initialisation on a dirty interpreter versus a fresh one: registers, the whole flat memory (incl. accessibility), frames, receipts, input-contract set, output index map and owner pointer agree; the transaction bytes sit at tx_offset; stale input contracts are dropped.',
+     level_note='Trusted: Kani/CBMC/cadical. Partial claim (initialisation mechanism).')
+
 # ---------------------------------------------------------------------------------------
 def opts_for(pid, h, tier):
     spec = PROPS[pid]
